@@ -251,6 +251,11 @@ def _unquote_coq(s):
 def coq_eval(tag, imports, exprs, shard=400, timeout=900, defs=""):
     """Evaluate Coq expressions of type string with vm_compute; returns list of Python str
     (or None where evaluation failed).  exprs: list of Coq terms."""
+    mods = sorted(set(re.findall(r"\b((?:Core|Gen|Model|Proofs|Props)\.[A-Za-z0-9_]+)", imports)))
+    if mods:
+        ok, log = coq_make([m.replace(".", "/") + ".vo" for m in mods])
+        if not ok:
+            return [None] * len(exprs), ["model does not build: " + log[-1500:]]
     d = os.path.join(BUILD, "cases", tag + "_%d" % os.getpid())
     shutil.rmtree(d, ignore_errors=True)
     os.makedirs(d)
